@@ -113,7 +113,8 @@ def run_task(spec, complete_at=None, cancel_at=None):
     """
     returns dict(samples=[...], requests=[...], wires=[...], handed={client: [...]}, error=None|exception, t_end=virtual end)
     """
-    clock = kernel.VirtualClock(horizon=spec.get("horizon", 100_000.0))
+    # virtual time is free; what bounds a run is the number of requests (see World.max_requests)
+    clock = kernel.VirtualClock(horizon=spec.get("horizon", 1e12))
     clock.offsets["worker"] = spec.get("perf_offset", 0.0)
     w = world.World(clock)
     world.install(w)
